@@ -428,4 +428,106 @@ class SchedulesGenerated(Part):
         ctx.cls("threads-%d" % len(spec["prog"]["threads"]))
 
 
-PARTS = [Sequential(), Track(), SchedulesExhaustive(), SchedulesGenerated()]
+def run_track_scheduled(n, preempt, tape, problems, existing=False):
+    """track() with its helper thread (auto_refresh on): consumer and helper are both run by the scheduler."""
+    import rich.progress as RP
+    from rich.console import Console
+    from rich.progress import Progress
+    from ..oracles.sched import Sched, CoopRLock, CoopEvent, Deadlock
+
+    con = Console(file=io.StringIO(), width=80, force_terminal=False, color_system=None, _environ={})
+    clock = Clock([1])
+    progress = Progress(console=con, auto_refresh=True, get_time=clock, disable=True, redirect_stdout=False, redirect_stderr=False)
+    s = Sched(dict((int(a), int(b)) for a, b in preempt), files={RP.__file__}, tape=tape)
+    progress._lock = CoopRLock(s, "progress")
+    TT = RP._TrackThread
+    saved = (TT.__init__, TT.start, TT.join)
+
+    def init(self, progress_, task_id, update_period):
+        saved[0](self, progress_, task_id, update_period)
+        self.done = CoopEvent(s, "track-done")
+
+    got = []
+    items = list(range(n))
+    tid = progress.add_task("existing", total=3) if existing else None
+    try:
+        TT.__init__ = init
+        TT.start = lambda self: setattr(self, "_vp_worker", s.spawn(self.run, "track-helper"))
+        TT.join = lambda self, timeout=None: s.join(self._vp_worker)
+
+        def consumer():
+            for v in progress.track(items, task_id=tid, update_period=0.001):
+                got.append(v)
+
+        s.add(consumer, "consumer")
+        try:
+            s.run(timeout=30)
+        except Deadlock as e:
+            problems.append(("deadlock", "C12/track-concurrent/deadlock", str(e)))
+            return s.step, s.switch_in_rich
+    finally:
+        TT.__init__, TT.start, TT.join = saved
+    for w in s.workers:
+        if w.exc is not None:
+            problems.append(("exception", "C12/track-concurrent/exc-%s" % type(w.exc).__name__, "%s raised %r" % (w.name, w.exc)))
+    if got != items:
+        problems.append(("track", "C12/track-concurrent/elements", "yielded %r of %r" % (got, items)))
+    task = progress.tasks[-1] if tid is None else progress._tasks[tid]
+    if task.completed != n:
+        problems.append(("track", "C12/track-concurrent/completed", "after track() over %d elements completed = %r (schedule %r)" % (n, task.completed, s.trace[:6])))
+    return s.step, s.switch_in_rich
+
+
+class TrackSchedules(Part):
+    name = "track-schedules"
+    custom = True
+    exhaustive = True
+    rule = ("track() over 4 elements with auto_refresh on: the consumer and the helper thread (started through the scheduler, its Event replaced by a cooperative one) "
+            "under every schedule with one preemption and every pair of preemptions (quick: pairs on a stride; thorough: all pairs) at traced lines of rich/progress.py and "
+            "progress-lock operations; completed must equal the number of elements yielded; non-trivial (distinct by construction) = schedules that switched inside a rich frame")
+    budget = {"quick": (16, 1), "thorough": (16, 1)}
+
+    def run_shard(self, tier, shard, nshards, seed, stats, deadline, known):
+        import time as _t
+
+        n_el = 4
+        probs = []
+        steps, _ = run_track_scheduled(n_el, [], [0], probs)
+        found = {}
+        for clause, sig, detail in probs:
+            found.setdefault(sig, ({"n": n_el, "preempt": [], "tape": [0]}, clause, detail))
+        stride = 1
+        scheds = [[(a, 0)] for a in range(steps)] + [[(a, 0), (b, 0)] for a in range(0, steps, stride) for b in range(a + 1, steps if tier == "thorough" else min(steps, a + 200), stride)]
+        n = 0
+        nt = 0
+        for si, sch in enumerate(scheds):
+            if si % nshards != shard:
+                continue
+            if _t.time() > deadline:
+                stats.capped = True
+                break
+            probs = []
+            _, sw = run_track_scheduled(n_el, sch, [0, 1], probs, existing=bool(si % 2))
+            n += 1
+            nt += 1 if sw else 0
+            for clause, sig, detail in probs:
+                if sig not in found:
+                    found[sig] = ({"n": n_el, "preempt": [list(x) for x in sch], "tape": [0, 1], "existing": bool(si % 2)}, clause, detail)
+        stats.evaluations += n
+        stats.nontrivial_count_distinct += nt
+        if not stats.capped:
+            stats.done += 1
+        stats.samples.append((1, {"shard": shard, "yield_points": steps, "schedules_run": n}, "range"))
+        for sig, (spec, clause, detail) in found.items():
+            if known.match(sig):
+                continue
+            stats.found[sig] = {"spec": spec, "clause": clause, "detail": detail, "size": 1, "part": self.name}
+
+    def replay(self, spec, ctx):
+        probs = []
+        run_track_scheduled(spec["n"], spec["preempt"], spec["tape"], probs, existing=spec.get("existing", False))
+        for clause, sig, detail in probs:
+            ctx.violation(clause, sig, detail)
+
+
+PARTS = [Sequential(), Track(), SchedulesExhaustive(), SchedulesGenerated(), TrackSchedules()]
